@@ -61,6 +61,10 @@ class ModelSlot:
         self.last_pred = None
         self.last_pred_data = None
         self.abort_seen = "no"
+        self.last_state = None    # (digest, json text) after the last event that touched this object
+        self.fit_doc = None       # document right after fit (gen 0)
+        self.gate0 = None         # gate attributes (dq names, tz) when the object entered service: the
+                                  # reference machine's own memory, never re-read from the live object
 
 
 class DataSlot:
@@ -69,6 +73,7 @@ class DataSlot:
         self.recipe = recipe
         self.inputs = inputs
         self.n_uses = 0
+        self.last_state = None
 
 
 class Worker:
@@ -220,12 +225,63 @@ class Worker:
 
             out = {"class": "harness-error", "error": f"{type(e).__name__}: {e}",
                    "trace": traceback.format_exc(limit=6)}
+        if out.get("class") != "harness-error":
+            try:
+                self._collateral(ev, out)
+            except Exception as e:  # noqa: BLE001
+                out["collateral_error"] = f"{type(e).__name__}: {e}"
         self.clock.advance({"FIT": 1.0, "PREDICT": 0.05, "PREDICT_PAIR": 0.1}.get(kind, 0.01))
         out["vclock"] = [round(t0, 6), round(self.clock.now, 6)]
         out["clock_reads"] = self.clock.reads - r0
         self.last_kinds.append(kind)
         self.n_events += 1
         return out
+
+    def _collateral(self, ev, out):
+        """After every event: every live object the event was not entitled to change must be unchanged.
+
+        The event's own targets are judged by the op itself; here the last recorded state of each object is
+        compared with its state now, so that a change made *through another object or by another call* is seen
+        at the event that made it."""
+        a = ev.get("args", {})
+        kind = ev["kind"]
+        own_m = a.get("m") if kind in ("FIT", "LOAD", "NEW_MODEL") else None
+        own_d = a.get("d") if kind == "MAKE_DATA" else None
+        coll = []
+        for ms, slot in self.models.items():
+            if not slot.fitted:
+                continue
+            dg, txt, _mode = self.model_state(slot.obj)
+            if slot.last_state is not None and ms != own_m and dg != slot.last_state[0]:
+                paths = []
+                if txt and slot.last_state[1]:
+                    try:
+                        paths = D.top_paths(D.json_paths_diff(json.loads(slot.last_state[1]), json.loads(txt)))
+                    except Exception:  # noqa: BLE001
+                        pass
+                already = (kind in ("PREDICT", "INSPECT", "STORE", "SCRIBBLE_PRED") and a.get("m") == ms
+                           and (out.get("model_changed") or out.get("restore_same") is False))
+                if not already:
+                    coll.append({"what": "model", "fam": slot.fam, "profile": slot.profile, "paths": paths,
+                                 "own": a.get("m") == ms})
+                    try:
+                        slot.twin = copy.deepcopy(slot.obj)
+                        slot.ref_cache = {}
+                    except Exception:  # noqa: BLE001
+                        pass
+            slot.last_state = (dg, txt)
+        for dsid, ds in self.data.items():
+            st = self.data_state(ds.obj)
+            if ds.last_state is not None and dsid != own_d:
+                diff = D.diff_parts(ds.last_state, st)
+                already = a.get("d") == dsid and out.get("data_changed") or (
+                    kind == "SCRIBBLE_DATA" and a.get("d") == dsid and out.get("changed")) or (
+                    kind == "SCRIBBLE_PRED" and out.get("data_changed"))
+                if diff and not already:
+                    coll.append({"what": "data", "fam": self._data_fam(ds.obj), "paths": diff, "own": a.get("d") == dsid})
+            ds.last_state = st
+        if coll:
+            out["collateral"] = coll
 
     # ------------------------------------------------------------------ schedule / fault events
 
@@ -450,9 +506,11 @@ class Worker:
         dg, txt, mode = self.model_state(model)
         out["doc_digest"], out["doc_mode"] = dg, mode
         out["doc"] = txt
+        slot.fit_doc = txt
         out["gate"] = self._gate_attrs(model)
         out["data_dq_before"] = data_dq_before
         out["data_w_before"] = data_w_before
+        slot.gate0 = {"dq": _names(out["gate"]["dq"]), "tz": out["gate"]["tz"]}
         pf, nums = self._poor_fit(fam, model)
         out["poor_fit"], out["fit_numbers"] = pf, nums
         if pf:
@@ -494,6 +552,10 @@ class Worker:
         obj = slot.obj
         f = {"fam": slot.fam, "profile": slot.profile, "fitted": bool(slot.fitted), "gen": slot.gen}
         f["model_dq"] = bool(getattr(obj, "disqualification", None))
+        if slot.gate0 is not None:
+            f["gate0"] = slot.gate0
+            f["gate_now"] = {"dq": _names(_wlist(getattr(obj, "disqualification", None))),
+                             "tz": str(getattr(obj, "baseline_timezone", None))}
         f["data"] = self._data_fam(ds.obj)
         f["model_tz"] = str(getattr(obj, "baseline_timezone", None))
         f["data_tz"] = str(getattr(ds.obj, "tz", None))
@@ -612,6 +674,14 @@ class Worker:
                 out["n_pred_finite"] = int(res["predicted"].notna().sum())
             except Exception:  # noqa: BLE001
                 out["n_pred_finite"] = None
+            # independent reader: the documented curve evaluated from the JSON text alone (daily/billing, daily rows)
+            if slot.fam in ("daily", "billing") and agg in (None, "none") and m_txt_before:
+                try:
+                    from . import reader
+
+                    out["reader"] = reader.check(m_txt_before, res)
+                except Exception as e:  # noqa: BLE001
+                    out["reader"] = {"checked": 0, "bad": [], "error": _cls(e) + ": " + str(e)[:120]}
         else:
             parts = None
         # references (only meaningful for a fitted model; skipped after an injected abort of this very op)
@@ -790,6 +860,11 @@ class Worker:
         except Exception as e:  # noqa: BLE001
             out["restore_same"] = _cls(e)
         out["doc_digest"] = D.text(txt)
+        if slot.gen == 0 and slot.fit_doc is not None:
+            same = json.loads(txt) == json.loads(slot.fit_doc)
+            out["same_as_fit"] = same
+            if not same:
+                out["fit_diff_paths"] = D.top_paths(D.json_paths_diff(json.loads(slot.fit_doc), json.loads(txt)))
         if slot.origin_doc is not None and slot.origin_doc in store:
             orig = store[slot.origin_doc]["text"]
             same = txt == orig
@@ -866,6 +941,7 @@ class Worker:
         gate = self._gate_attrs(obj)
         out["gate"] = gate
         out["gate_at_store"] = entry["gate"]
+        slot.gate0 = {"dq": _names(gate["dq"]), "tz": gate["tz"]}
         dg, retxt, mode = self.model_state(obj)
         out["restore_mode"] = mode
         if retxt is not None:
